@@ -363,6 +363,76 @@ def run_node_origin(cx):
                                {"op": "node_origin"})
         finally:
             w.teardown()
+    # answers a threading application builds on its own behalf (handler failed: 5012; no thread slot: 3004) and
+    # regular ones, for requests with the P and T bits in every combination: header read off the wire
+    name = "peer1.verif.example"
+    beh = {}
+    w = World(dict(peers=[{"name": name}],
+                   apps=[{"tag": "a4", "id": 4, "kind": "threading", "max_threads": 1, "peers": [name],
+                          "behaviour": lambda m: beh.get(m.header.hop_by_hop_identifier, "answer")}],
+                   node={"idle_timeout": 10 ** 6}))
+    h = w.h
+    try:
+        w.start()
+        sp = h.inbound(ip="10.1.0.1", port=50000)
+        h.settle()
+        sp.send(M.cer(name, REALM, auth=[4], hbh=1, e2e=1))
+        h.settle()
+        sp.drain()
+        sent = {}
+        hb = 100
+        app = w.apps["a4"]
+        for fl in (0xc0, 0x80, 0xd0, 0x90):
+            for kind in ("answer", "raise", "busy"):
+                hb += 1
+                if kind == "busy":
+                    # the only thread slot is taken by a handler that waits; the next request finds none
+                    beh[hb] = "slow"
+                    app.release.clear()
+                    sent[hb] = (fl, "slow")
+                    sp.send(M.ccr(name, REALM, REALM, app=4, hbh=hb, e2e=0x7000 + hb, flags=fl, session=f"f;{hb}"))
+                    for _ in range(4):
+                        h.tick()
+                    hb += 1
+                    sent[hb] = (fl, "busy")
+                    sp.send(M.ccr(name, REALM, REALM, app=4, hbh=hb, e2e=0x7000 + hb, flags=fl, session=f"f;{hb}"))
+                    h.settle()
+                    app.release.set()
+                    h.settle()
+                    continue
+                beh[hb] = kind
+                sent[hb] = (fl, kind)
+                sp.send(M.ccr(name, REALM, REALM, app=4, hbh=hb, e2e=0x7000 + hb, flags=fl, session=f"f;{hb}"))
+                h.settle()
+        sp.drain()
+        rcs = {}
+        for f in sp.frames:
+            if f.is_request or f.h.hbh not in sent:
+                continue
+            fl, kind = sent[f.h.hbh]
+            cx.evals += 1
+            cx.hashes.add(h64("node-flags", fl, kind))
+            rcs[kind] = rcs.get(kind, []) + [f.result_code]
+            bad = []
+            if f.h.flags & 0x80:
+                bad.append("R")
+            if f.h.flags & 0x20:
+                bad.append("E")
+            if f.h.flags & 0x10:
+                bad.append("T")
+            if (f.h.flags & 0x40) != (fl & 0x40):
+                bad.append("P")
+            if f.h.flags & 0x0f:
+                bad.append("reserved")
+            if f.h.code != 272 or f.h.app != 4 or f.h.e2e != 0x7000 + f.h.hbh:
+                bad.append("header")
+            if bad:
+                cx.witness("generated.flags_not_as_specified.wire." + "+".join(bad),
+                           {"request_flags": hex(fl), "answer_flags": hex(f.h.flags), "kind": kind,
+                            "result_code": f.result_code, "frame": repr(f)}, {"op": "node_origin"})
+        cx.cov["node_wire_answers_by_kind"] = {k: sorted(set(v)) for k, v in rcs.items()}
+    finally:
+        w.teardown()
 
 
 def run_shard(spec):
